@@ -142,6 +142,8 @@ func cmdGen(args []string) {
 	n := fs.Int("n", 1000, "number of vectors")
 	tables := fs.String("tables", "", "comma separated tables (default all)")
 	ops := fs.String("ops", "", "comma separated hex opcodes (default all)")
+	inj1 := fs.Int("inj1", 0, "slots: percentage of vectors that run TWO Steps with a request (NMI / maskable) raised at the boundary between them")
+	toppc := fs.Int("toppc", 0, "slots: percentage of vectors whose PC is one of FFFB..FFFF (the instruction straddles or touches the top of the address space)")
 	pend := fs.Int("pend", 0, "slots: percentage of vectors that carry a REFUSED maskable request (IFF1 clear, request pending with 0..3 data bytes)")
 	fs.Parse(args[1:])
 	r := &rng{s: *seed*0x2545F4914F6CDD1D + 0x1234567}
@@ -168,6 +170,15 @@ func cmdGen(args []string) {
 			for _, op := range opl {
 				for k := 0; k < *per; k++ {
 					v := r.slotVec(fmt.Sprintf("%s-%02x-%d", t, op, k), t, uint8(op))
+					if *toppc > 0 && r.chance(*toppc) {
+						old := v.W[12]
+						v.W[12] = uint16(0xfffb + r.n(5))
+						for i := range v.Over {
+							if v.Over[i].Addr == old {
+								v.Over[i].Addr = v.W[12]
+							}
+						}
+					}
 					if *pend > 0 && r.chance(*pend) {
 						// the instruction runs with a request waiting that the CPU must refuse (and keep)
 						v.ID = fmt.Sprintf("%s-%02x-p%d", t, op, k)
@@ -181,10 +192,25 @@ func cmdGen(args []string) {
 							v.W[1] = uint16(2 + r.n(4)) // BC small and >= 2: a block instruction repeats
 						}
 					}
+					if *inj1 > 0 && v.Intr == nil && r.chance(*inj1) {
+						// what the first Step leaves behind besides the public state must not matter to the acceptance that follows
+						v.ID = fmt.Sprintf("%s-%02x-j%d", t, op, k)
+						v.N = 2
+						q := Intr{Type: r.n(2)}
+						if q.Type == 1 && r.chance(60) {
+							q.Data = []uint8{[]uint8{0xff, 0xef, 0x10, 0x13}[r.n(4)]}
+						}
+						v.Inj = []Inject{{At: 1, Intr: q}}
+						if r.chance(70) {
+							v.IFF1, v.IFF2 = true, true
+						}
+					}
 					fmt.Fprintln(out, v.String())
 				}
 			}
 		}
+	case "im0twice":
+		genIM0Twice(r, out, *n)
 	case "malformed":
 		for i := 0; i < *n; i++ {
 			v := r.randomState(fmt.Sprintf("mal-%d", i))
@@ -220,6 +246,25 @@ func cmdGen(args []string) {
 	default:
 		fmt.Fprintln(os.Stderr, "unknown gen kind", kind)
 		os.Exit(2)
+	}
+}
+
+// genIM0Twice: a mode-0 request is accepted (RST 38h), the handler re-enables interrupts, and a SECOND mode-0 request arrives that pushes /
+// takes operands from memory (RST, CALL nn, JP with its operand in memory, PUSH): histories in which something remembered from the first
+// acceptance could matter to the second
+func genIM0Twice(r *rng, out *bufio.Writer, n int) {
+	for i := 0; i < n; i++ {
+		v := r.randomState(fmt.Sprintf("im0x2-%d", i))
+		v.IM, v.IFF1, v.IFF2, v.HALT = 0, true, true, false
+		v.W[12] = uint16(0x0100 + r.n(0xe000))
+		v.W[11] = uint16(0xf000 + r.n(0x0f00))
+		v.BP = "nil"
+		v.Intr = &Intr{Type: 1, Data: []uint8{0xff}} // RST 38h
+		second := [][]uint8{{0xef}, {0xcd, 0x34, 0x12}, {0xc3}, {0xcd}, {0xe5}, {0xc5}, {0xd7}}[r.n(7)]
+		v.Inj = []Inject{{At: 3, Intr: Intr{Type: 1, Data: second}}}
+		v.N = 5
+		v.Over = []Override{{0x0038, []uint8{0xfb, 0x00, 0x00, 0x00, 0x00}}, {0x0028, []uint8{0x00, 0x00}}, {0x0010, []uint8{0x00, 0x00}}, {0x1234, []uint8{0x00, 0x00}}}
+		fmt.Fprintln(out, v.String())
 	}
 }
 
